@@ -403,15 +403,26 @@ def rule_default_entry_rejected(res, rid, m):
     """C17-R1 lemma: operator[] may insert a default entry; it can never be accepted."""
     fb = m.fb
     # (a) default curVersion is 0: the member compared with the version parameter at the accept guard
-    mf = MustFacts(m.addSegment)
-    rets = [accept_point(m)]
     pver = [p for p in m.addSegment.params if p["t"].get("bits") == 8 and p["t"].get("k") == "int"]
     if len(pver) != 1:
         raise Broken("addSegment: cannot identify the version parameter")
     pver = pver[0]["decl"]
     vfield = None
-    for r in rets:
-        for a in mf.at(r):
+    aps = accepting_paths(m)
+    per_path = []
+    for p, r, ws in aps:
+        found = None
+        for a in p.atoms:
+            if a[0] == "cmp" and a[2] == "==":
+                l, rr = strip_all_casts(a[4]), strip_all_casts(a[5])
+                for x, y in ((l, rr), (rr, l)):
+                    if x.get("k") == "member" and x.get("dk") == "field" and y.get("k") == "ref" and y.get("decl") == pver:
+                        found = x
+        per_path.append(found)
+    if all(x is not None for x in per_path):
+        vfield = per_path[0]
+    for r in []:
+        for a in []:
             if a[0] == "cmp" and a[2] == "==":
                 l, rr = strip_all_casts(a[4]), strip_all_casts(a[5])
                 for x, y in ((l, rr), (rr, l)):
@@ -641,13 +652,30 @@ def expand_locals(fn, n, depth=3):
     return out
 
 
+def accepting_paths(m):
+    """Paths of addSegment that return true, each with its atoms and its entry writes in path order."""
+    f = m.addSegment
+    wids = {n["id"]: (d, kind) for d, kind, n in entry_writes(m)}
+    out = []
+    for p in paths.enumerate_paths(f):
+        r = p.returns()
+        if r is None:
+            continue
+        v = p.value_of(r["e"], before=r["id"])
+        if const_value(v) == 0:
+            continue
+        ws = [(wids[x["id"]], x) for _, x in p.elems() if x["id"] in wids]
+        out.append((p, r, ws))
+    if not out:
+        raise Broken("addSegment has no accepting path")
+    return out
+
+
 def rule_accept_guard(res, rid, m):
     """C05-R5: addSegment accepts only under version ==, message type ==, counter ==
     successor, valid transition; transition table equals the protocol's."""
     fb = m.fb
     f = m.addSegment
-    mf = MustFacts(f)
-    rets = [accept_point(m)]
     segrec = fb.record(SEG)
     scal = [x for x in segrec["fields"] if x["t"].get("k") in ("int", "enum") and x["qname"] != m.buffer]
     # stored scalars: version (8-bit int), message type (enum CmpHeader::MessageType), counter (16-bit), segment state (enum SegmentType)
@@ -665,27 +693,41 @@ def rule_accept_guard(res, rid, m):
     if set(role) != {"message type", "segment state", "version", "counter"}:
         raise Broken("SegmentedPacket: cannot bind stored version/type/counter/state members: %s" % role)
     m.roles = role
-    for r in rets:
-        fs = mf.at(r)
+    params = {p["decl"] for p in f.params}
+    aps = accepting_paths(m)
+    for pi, (p, r, ws) in enumerate(aps):
+        tag = "" if len(aps) == 1 else "#%d" % (pi + 1)
+        atoms = p.atoms
         for what in ("version", "message type", "counter"):
             fld = role[what]
             hit = None
-            for a in fs:
+            for a in atoms:
                 if a[0] == "cmp" and a[2] == "==":
                     dl, _ = depends(f, a[4])
                     dr, _ = depends(f, a[5])
-                    pl = {p["decl"] for p in f.params}
-                    if (fld in dl and dr & pl) or (fld in dr and dl & pl):
+                    if (fld in dl and dr & params) or (fld in dr and dl & params):
                         hit = a
-            res.check(hit is not None, rid, "addSegment:accept-needs-%s" % what.replace(" ", "-"), r.get("loc"),
+            res.check(hit is not None, rid, "addSegment:accept-needs-%s%s" % (what.replace(" ", "-"), tag), r.get("loc"),
                       "accept path is guarded by `%s %s %s`" % ((hit[1], hit[2], hit[3]) if hit else ("", "", "")),
-                      "a segment can be appended without the stored %s matching the frame's: fragments of different messages can be mixed" % what)
+                      "a segment can be accepted without the stored %s matching the frame's: fragments of different messages can be mixed" % what)
         hit = None
-        for a in fs:
+        for a in atoms:
             if a[0] == "truth" and a[2] is True and a[3].get("k") == "call" and callee_name(a[3]) == SEG + "::isValidSegmentType":
                 hit = a
-        res.check(hit is not None, rid, "addSegment:accept-needs-transition", r.get("loc"), "accept path is guarded by isValidSegmentType(type)",
-                  "a segment can be appended without a valid segment-type transition")
+        res.check(hit is not None, rid, "addSegment:accept-needs-transition%s" % tag, r.get("loc"), "accept path is guarded by isValidSegmentType(type)",
+                  "a segment can be accepted without a valid segment-type transition")
+        # every accepting path performs the sibling state updates: counter advanced exactly once, segment state stored
+        incs = [x for (d, kind), x in ws if d == role["counter"] and kind in ("pre++", "post++")]
+        other_cnt = [x for (d, kind), x in ws if d == role["counter"] and kind not in ("pre++", "post++")]
+        res.check(len(incs) == 1 and not other_cnt, rid, "addSegment:accept-advances-counter%s" % tag, r.get("loc"),
+                  "the stored counter is advanced exactly once on this accepting path",
+                  "an accepting path of addSegment advances the stored sequence counter %d times (%s): the next well-formed segment is then rejected as "
+                  "out of sequence" % (len(incs), "other writes: %d" % len(other_cnt)))
+        st = [x for (d, kind), x in ws if d == role["segment state"] and kind == "assign"]
+        okst = len(st) == 1 and canon(strip_all_casts(st[0]["r"])) in {canon(strip_all_casts(a2[3]["args"][0])) for a2 in atoms
+                                                                     if a2[0] == "truth" and a2[3].get("k") == "call" and callee_name(a2[3]) == SEG + "::isValidSegmentType"}
+        res.check(okst, rid, "addSegment:accept-stores-state%s" % tag, r.get("loc"), "the segment state becomes the accepted segment's type",
+                  "an accepting path of addSegment does not store the accepted segment's type as the new state")
     # transition table
     ivt = fb.fn(SEG + "::isValidSegmentType")
     en = fb.enum(MH + "::SegmentType")
